@@ -328,6 +328,13 @@ func genTypeIn(r *hx.Rand, depth int, used map[string]bool, embeds bool) *TypeT 
 			if len(f.Sub.Fields) == 0 {
 				continue
 			}
+			// sometimes the embedded struct also declares a name the embedding struct has itself:
+			// the direct field shadows the promoted one (encoding/json and the validator must agree)
+			if len(t.Fields) > 0 && r.Chance(1, 4) {
+				if own := t.Fields[r.Intn(len(t.Fields))]; !own.Embed {
+					f.Sub.Fields = append(f.Sub.Fields, FieldT{JSON: own.JSON, Kind: "string", Tag: hx.Pick(r, tagsFor["string"])})
+				}
+			}
 		case k == "struct" || k == "pstruct" || k == "sstruct":
 			used[key(name)] = true
 			f.Sub = genType(r, depth+1)
